@@ -301,32 +301,34 @@ fn child(job: &str) {
     }));
 }
 
-fn programs(thorough: bool) -> Vec<Program> {
+/// The program family with the preemption bound each program is explored at.
+fn programs(thorough: bool) -> Vec<(Program, usize)> {
     use SpawnKind::*;
-    let mut v = Vec::new();
+    let mut v: Vec<(Program, usize)> = Vec::new();
     let seqs1: Vec<Vec<SpawnKind>> = vec![vec![Regular], vec![Urgent], vec![Forget]];
     let seqs2: Vec<Vec<SpawnKind>> = vec![vec![Regular, Regular], vec![Regular, Urgent], vec![Urgent, Regular], vec![Forget, Regular], vec![Regular, Forget]];
+    let deep = if thorough { 3 } else { 2 };
+    let wide = if thorough { 2 } else { 1 };
     for (concurrent_drop, keep_scheduler) in [(false, false), (true, false), (true, true)] {
-        // one spawner, one processor
-        for w in [1_u32, 2] {
-            for ops in seqs1.iter().chain(if thorough || w == 1 { seqs2.iter() } else { [].iter() }) {
-                if !thorough && w == 2 && ops[0] != Regular {
-                    continue;
-                }
-                v.push(Program { processors: 1, workers_per_processor: w, spawners: vec![(0, ops.clone())], concurrent_drop, keep_scheduler });
-            }
+        // one spawner, one processor, one worker: the core programs get the deepest bound
+        v.push((Program { processors: 1, workers_per_processor: 1, spawners: vec![(0, vec![Regular])], concurrent_drop, keep_scheduler }, deep));
+        for ops in seqs1.iter().skip(1).chain(seqs2.iter()) {
+            v.push((Program { processors: 1, workers_per_processor: 1, spawners: vec![(0, ops.clone())], concurrent_drop, keep_scheduler }, wide));
         }
-        // two spawners
-        if thorough {
-            for (pa, pb, procs) in [(0, 0, 1), (0, 1, 2)] {
-                for a in &seqs1 {
-                    for b in &seqs1 {
-                        v.push(Program { processors: procs, workers_per_processor: 1, spawners: vec![(pa, a.clone()), (pb, b.clone())], concurrent_drop, keep_scheduler });
-                    }
-                }
-            }
+        // two workers on the processor
+        for ops in seqs1.iter().chain(if thorough { seqs2.iter() } else { [].iter() }) {
+            v.push((Program { processors: 1, workers_per_processor: 2, spawners: vec![(0, ops.clone())], concurrent_drop, keep_scheduler }, wide));
+        }
+        // two spawners, same processor / different processors
+        let pairs: Vec<(Vec<SpawnKind>, Vec<SpawnKind>)> = if thorough {
+            seqs1.iter().flat_map(|a| seqs1.iter().map(move |b| (a.clone(), b.clone()))).collect()
         } else {
-            v.push(Program { processors: 2, workers_per_processor: 1, spawners: vec![(0, vec![Regular]), (1, vec![Regular])], concurrent_drop, keep_scheduler });
+            vec![(vec![Regular], vec![Regular]), (vec![Regular], vec![Forget])]
+        };
+        for (pa, pb, procs) in [(0, 0, 1), (0, 1, 2)] {
+            for (a, b) in &pairs {
+                v.push((Program { processors: procs, workers_per_processor: 1, spawners: vec![(pa, a.clone()), (pb, b.clone())], concurrent_drop, keep_scheduler }, wide));
+            }
         }
     }
     v
@@ -339,8 +341,9 @@ fn main() {
     }
     let thorough = vcommon::is_thorough();
     let mut c = Check::new("C14", "model_checking");
-    let bound: usize = std::env::var("C14_BOUND").ok().and_then(|s| s.parse().ok()).unwrap_or(if thorough { 3 } else { 2 });
+    let bound_override: Option<usize> = std::env::var("C14_BOUND").ok().and_then(|s| s.parse().ok());
     let progs = programs(thorough);
+    let bound = progs.iter().map(|(_, b)| *b).max().unwrap_or(0);
     if let Ok(path) = std::env::var("VERIF_REPLAY") {
         let v: Value = vcommon::serde_json::from_str(&std::fs::read_to_string(&path).expect("replay file")).expect("json");
         hooks();
@@ -353,9 +356,9 @@ fn main() {
     }
     let nshards = 8;
     let mut jobs = Vec::new();
-    for p in &progs {
+    for (p, b) in &progs {
         for s in 0..nshards {
-            jobs.push(format!("{}|{}|{}|{}", p.name(), s, nshards, bound));
+            jobs.push(format!("{}|{}|{}|{}", p.name(), s, nshards, bound_override.unwrap_or(*b)));
         }
     }
     let timeout = Duration::from_secs(if thorough { 3000 } else { 300 });
@@ -410,7 +413,8 @@ fn main() {
         }
     }
     c.rule = format!(
-        "programs = fake hardware (1-2 processors) x workers_per_processor (1-2) x 1-2 spawner threads (each pinned to a processor, 1-2 of spawn/spawn_urgent/spawn_and_forget, then awaits its handles) x {{pool dropped after the spawners were joined | pool dropped concurrently while spawners hold scheduler clones}}; for each program every schedule of all threads (incl. the pool's own workers) with at most {bound} preemptions over the hook points; states = schedules executed, transitions = scheduling steps"
+        "programs = fake hardware (1-2 processors) x workers_per_processor (1-2) x 1-2 spawner threads (each pinned to a processor, 1-2 of spawn/spawn_urgent/spawn_and_forget, then awaits its handles) x {{pool dropped after the spawners were joined | pool dropped concurrently while spawners hold scheduler clones}}; for each program every schedule of all threads (incl. the pool's own workers) with at most {bound} preemptions (single-spawn single-worker programs) / {} preemptions (all other programs) over the hook points; states = schedules executed, transitions = scheduling steps",
+        progs.iter().map(|(_, b)| *b).min().unwrap_or(0)
     );
     c.extra.insert("programs".into(), json!(progs.len()));
     c.extra.insert("preemption_bound".into(), json!(bound));
